@@ -167,12 +167,21 @@ def gen_rand(ctx):
                     "maxsamples": maxs, "pace": pace, "extra_on": int(r.chance(1, 2)), "stall": stall})
         if stall:
             ctx.count("rand-consumer-stall")
+    if ctx.tier == "thorough":
+        # one key-up longer than 2^15 frames (frame-number wrap; about 22 minutes of audio, fed as fast as the modulator takes it)
+        out.append({"src": rand_call(r), "dst": rand_call(r, True), "delay": 0, "seed": r.below(1 << 31), "keyups": 1,
+                    "maxsamples": 32772 * 320, "minsamples": 32772 * 320, "pace": 0, "extra_on": 0, "stall": 0})
+        ctx.count("rand-keyup-beyond-frame-number-wrap")
+        # a consumer that starts draining only 6 s after the first byte (longer than any finite put timeout one might pick)
+        out.append({"src": rand_call(r), "dst": rand_call(r, True), "delay": 0, "seed": r.below(1 << 31), "keyups": 1,
+                    "maxsamples": 700, "minsamples": 400, "pace": 0, "extra_on": 0, "stall": 6000})
+        ctx.count("rand-consumer-stall-6s")
         ctx.count(f"rand-delay{delay}")
     return out
 
 
 def rand_line(c):
-    return f"rand {c['src']} {c['dst'] or '-'} {c['delay']} {c['seed']} {c['keyups']} {c['maxsamples']} {c['pace']} {c['extra_on']} {c.get('stall', 0)}"
+    return f"rand {c['src']} {c['dst'] or '-'} {c['delay']} {c['seed']} {c['keyups']} {c['maxsamples']} {c['pace']} {c['extra_on']} {c.get('stall', 0)} {c.get('minsamples', 0)}"
 
 
 def parse_result(line):
